@@ -9,13 +9,13 @@ package main
 // and the runtime's second symboliser (FuncForPC / FileLine).
 
 import (
-	"math"
 	"bytes"
 	"context"
 	"encoding/json"
 	"errors"
 	"fmt"
 	"log/slog"
+	"math"
 	"path/filepath"
 	"runtime"
 	"strconv"
